@@ -376,19 +376,20 @@ func c14RunFramesInner(e *vsched.Exec, c *c14FrameCase, st *c14FrameStats) strin
 		}
 		return ""
 	}
-	deliver := func(order []int) string {
+	deliverInto := func(order []int, rb []byte) string {
 		seqNo++
 		st.orders++
 		src := c14Addr("s" + strconv.Itoa(seqNo))
 		for _, j := range order {
 			rp.Inject(frames[0][j], src)
 		}
-		got, cl := c14Drain(rg, rp, sentinel, buf)
+		got, cl := c14Drain(rg, rp, sentinel, rb)
 		if cl != "" {
 			return cl
 		}
 		return check1(got, src.String(), pkts[0], fmt.Sprint("chunk order ", order))
 	}
+	deliver := func(order []int) string { return deliverInto(order, buf) }
 	fail := ""
 	seq := make([]int, 0, 10)
 	if (c.Orders == "all" || c.Orders == "perms") && cc <= 5 {
@@ -507,6 +508,35 @@ func c14RunFramesInner(e *vsched.Exec, c *c14FrameCase, st *c14FrameStats) strin
 			return cl
 		}
 	}
+	// reader-buffer dimension (see c14ReaderBufs): reversed order with a duplicate, forward order
+	// with a late duplicate and the short-header packet, read into each tight buffer
+	rbufs := c14ReaderBufs(L)
+	for _, rb := range rbufs {
+		rv := make([]int, 0, cc+1)
+		for i := cc - 1; i >= 0; i-- {
+			rv = append(rv, i)
+			if i == cc/2 {
+				rv = append(rv, cc-1)
+			}
+		}
+		fw := make([]int, 0, cc+1)
+		for i := 0; i < cc; i++ {
+			fw = append(fw, i)
+		}
+		for _, order := range [][]int{rv, append(fw, 0)} {
+			if cl := deliverInto(order, rb.buf); cl != "" {
+				return rb.what + ": " + cl
+			}
+		}
+		rp.Inject(short, c14Addr("S"))
+		got, cl := c14Drain(rg, rp, sentinel, rb.buf)
+		if cl == "" {
+			cl = check1(got, c14Addr("S").String(), short, "a short-header packet")
+		}
+		if cl != "" {
+			return rb.what + ": " + cl
+		}
+	}
 	if cl := c14Census(rg, geckoMaxPerSource, geckoMaxReassembly); cl != "" {
 		return cl
 	}
@@ -538,7 +568,61 @@ func c14RunFramesInner(e *vsched.Exec, c *c14FrameCase, st *c14FrameStats) strin
 	if cl != "" {
 		return cl
 	}
-	return check1(got, c14Addr("E").String(), short, "the end-to-end short-header packet")
+	if cl := check1(got, c14Addr("E").String(), short, "the end-to-end short-header packet"); cl != "" {
+		return cl
+	}
+	// the same end-to-end delivery read into each tight reader buffer (fresh source per buffer)
+	for k, rb := range rbufs {
+		st.orders++
+		src := c14Addr("E" + strconv.Itoa(k+1))
+		for i := cc - 1; i >= 0; i-- {
+			rw.Inject(wires[0][i], src)
+			if i == cc-1 {
+				rw.Inject(wires[0][i], src)
+			}
+		}
+		got, cl := c14Drain(re, rw, sentinelWire, rb.buf)
+		if cl == "" {
+			cl = check1(got, src.String(), pkts[0], "the end-to-end delivery in reverse order with a duplicate")
+		}
+		if cl != "" {
+			return rb.what + ": " + cl
+		}
+		rw.Inject(shortWire, src)
+		got, cl = c14Drain(re, rw, sentinelWire, rb.buf)
+		if cl == "" {
+			cl = check1(got, src.String(), short, "the end-to-end short-header packet")
+		}
+		if cl != "" {
+			return rb.what + ": " + cl
+		}
+	}
+	return ""
+}
+
+// c14ReaderBufs is the reader-buffer dimension: the buffer the reader hands to ReadFrom. The
+// property promises the written packet to any reader whose buffer can hold the PACKET; how large
+// the chunk datagrams were on the wire (padding, configured maximum up to 2048) is Gecko's own
+// business. Besides the roomy 4096-byte buffer of the order enumeration every case is read with a
+// buffer of exactly the packet length and, where the packet fits, with quic-go's receive buffer
+// size (protocol.MaxPacketBufferSize = 1452, smaller than a padded chunk datagram of the
+// 1200..2048 configuration). Buffers have cap == len.
+// Added after the independently seeded change C14-7 (ReadFrom received every datagram straight
+// into the caller's buffer instead of its private 2048-byte one, so a chunk datagram larger than
+// the reader's buffer was discarded/truncated and the packet never reassembled).
+type c14RBuf struct {
+	what string
+	buf  []byte
+}
+
+const c14QuicGoReadBuf = 1452
+
+func c14ReaderBufs(L int) []c14RBuf {
+	r := []c14RBuf{{"reader buffer sized to the packet", make([]byte, L)}}
+	if L < c14QuicGoReadBuf {
+		r = append(r, c14RBuf{"reader buffer of quic-go's receive size", make([]byte, c14QuicGoReadBuf)})
+	}
+	return r
 }
 
 var c14BoundaryLens = []int{1, 2, 3, 7, 8, 9, 16, 63, 64, 65, 87, 88, 173, 174, 175, 176, 260, 261, 262, 347, 348, 349, 435, 436, 522, 609, 696, 697, 997, 998, 999, 1000, 1199, 1200, 1201, 1496, 1497, 1498, 1499, 1500}
@@ -620,6 +704,7 @@ func c14FramesEnumerate(sh *evidence.Shard) {
 		"pad_draw":        "min (raw 0): " + minOrders + "; max (raw n-1): " + maxOrders + "; wrap (raw n), top (raw 2^32-1): two delivery orders of one message; n = number of admissible pad lengths of the chunk",
 		"delivery_orders": "<=5 chunks: every permutation and every permutation with one duplicated chunk (n*(n+1)!/2); 6..8 chunks: 2n rotations of forward/reversed order, each also with one duplicate; plus per case: 3 messages (ids 255,0,1) of one source interleaved, one message from two sources interleaved, short-header passthrough, one end-to-end delivery through Salamander",
 		"message_ids":     "counter preset to 254: ids 255, 0, 1",
+		"reader_buffer":   "4096 bytes for the order enumeration; per case also exactly the packet length and (packet <= 1452) quic-go's 1452-byte receive buffer: reversed+duplicate, forward+late duplicate, short-header passthrough on the plain path and the end-to-end delivery + short-header packet through Salamander",
 	}
 	// sharded by (config, length) group; the chunk counts and pad draws of a group run together
 	var grp int64
@@ -651,7 +736,8 @@ func c14FramesEnumerate(sh *evidence.Shard) {
 	if th && !stop {
 		p2 := sh.Part("every-pad-value", "enum")
 		p2.Alphabet = map[string]any{"size_configs(min,max)": c14Cfgs, "packet_len(boundary)": c14BoundaryLens, "chunk_count_draw": "2..8",
-			"pad_draw": "every k-th admissible pad length, k = 0..(number of admissible lengths - 1), same k for every chunk (clamped)", "delivery_orders": "forward with a late duplicate, reversed with a duplicate, one message from two sources, short-header passthrough, end-to-end"}
+			"pad_draw": "every k-th admissible pad length, k = 0..(number of admissible lengths - 1), same k for every chunk (clamped)", "delivery_orders": "forward with a late duplicate, reversed with a duplicate, one message from two sources, short-header passthrough, end-to-end",
+			"reader_buffer": "4096 bytes, exactly the packet length, quic-go's 1452 bytes (as in size-identity)"}
 		grp = 0
 		for _, L := range c14BoundaryLens {
 			for ci, cfg := range c14Cfgs {
